@@ -244,7 +244,7 @@ class SrcGen:
         return out.encode()
 
 
-# deterministic witnesses outside the corpus (always run; each failing one is listed in known_findings.d/)
+# deterministic witnesses outside the corpus (always run; each failing one is listed in known_findings.txt )
 DET_SOURCES = [
     b"if (x => x * 2) {\n}\n", b"if (=> 1) {\n}\n", b"for (x => x) {\n}\n", b"switch (x => x) {\n}\n", b"if ((x, y) => x + y) {\n}\n",
     b"if (T{}) {\n}\n", b"if (x!) {\n}\n", b"if (a ?: b) {\n}\n", b"x := ((a))\n", b"if ((a)) {\n}\n",
